@@ -25,9 +25,11 @@ type c01Case struct {
 
 func constructedHdrOpts() gen.HeaderOpts {
 	return gen.HeaderOpts{
-		Val:        gen.ValOpts{Depth: 3, Floats: true, NaN: true, Tags: true, BstrKeys: true, BigInts: true, Spellings: true},
-		MaxEntries: 40,
-		AlgSpell:   true,
+		Val:         gen.ValOpts{Depth: 3, Floats: true, NaN: true, Tags: true, BstrKeys: true, BigInts: true, Spellings: true},
+		MaxEntries:  40,
+		AlgSpell:    true,
+		PadBoundary: true,
+		PadHuge:     true,
 	}
 }
 
